@@ -220,6 +220,12 @@ func (p rPkt) body() (typ byte, minor byte, body []byte) {
 		m.N["flags"], m.N["authen_method"], m.N["priv_lvl"], m.N["authen_type"], m.N["authen_service"] = p.Flags, 6, 1, 1, 1
 		m.S["user"], m.S["port"], m.S["rem_addr"] = []byte(p.User), []byte("tty0"), []byte("203.0.113.9")
 		m.Args = [][]byte{[]byte("task_id=1"), []byte("cmd=show version")}
+		if p.Args != nil {
+			m.Args = nil
+			for _, a := range p.Args {
+				m.Args = append(m.Args, []byte(a))
+			}
+		}
 		b, _ := ref.AcctRequest.Encode(m)
 		return 3, 0, b
 	case "rawbody": // Action carries the header type
